@@ -81,7 +81,7 @@ Proof. vm_compute. repeat split; reflexivity. Qed.
 (* how the sites are justified: lemma / guard / out-of-model / searched (codes 1 2 3 4), and nothing else *)
 Theorem C07_ledger_census :
   (length panic_sites, count_class 1 ledger_classes, count_class 2 ledger_classes, count_class 3 ledger_classes,
-   count_class 4 ledger_classes) = (349, 87, 130, 38, 94)
+   count_class 4 ledger_classes) = (350, 87, 131, 38, 94)
   /\ forallb (fun c => N.leb 1 c && N.leb c 4) ledger_classes = true.
 Proof. vm_compute. split; reflexivity. Qed.
 
